@@ -33,3 +33,10 @@ package pool
 //@ func (*Pool).Acquire
 //@   requires built: p.limiter != nil
 //@   ensures[C19] delegates: ncalls("core.Limiter.Acquire") == 1 && callrecv("core.Limiter.Acquire", 0) == p.limiter && callarg("core.Limiter.Acquire", 0, 0) == ctx && ret0 == callres("core.Limiter.Acquire", 0, 0) && ret1 == callres("core.Limiter.Acquire", 0, 1)
+
+//@ func (*FixedPool).Limit
+//@   ensures[C19] value: result == p.limit
+//@   assigns nothing
+//@ func (*FixedPool).Ordering
+//@   ensures[C11,C19] value: result == p.ordering
+//@   assigns nothing
